@@ -133,6 +133,13 @@ class DomainParser:
 
             same_type_constants.append(constant_name)
 
+        # names that are not followed by "- <type>" are constants of the root type.
+        constants.update(
+            {
+                name: PDDLConstant(name, domain_types[ObjectType.name])
+                for name in same_type_constants
+            }
+        )
         self.logger.debug(f"Extracted {len(constants)} from the domain.")
         return constants
 
